@@ -482,6 +482,8 @@ func PathNodeToInterface(tree PathNode, opts *Options, useParent bool) interface
 					ret[&x] = vv
 				case []interface{}:
 					ret[&x] = vv
+				case map[thrift.FieldID]interface{}:
+					ret[&x] = vv
 				default:
 					ret[kv] = vv
 				}
